@@ -157,6 +157,7 @@ pub struct Candidate {
     pub trace: Vec<bool>,
     pub model: BTreeMap<String, String>,
     pub exact: bool,
+    pub float: bool,
 }
 
 #[derive(Clone, Debug)]
@@ -171,6 +172,11 @@ pub struct Config {
     pub z3_alt: String,
     pub seed: u64,
     pub keep_samples: usize,
+    pub cvc5: String,
+    pub fp_timeout_ms: u64,
+    /// magnitude range used when a float counterexample has to be searched around a solver model
+    pub float_search: (f64, f64),
+    pub float_search_trials: u32,
 }
 
 impl Default for Config {
@@ -186,6 +192,10 @@ impl Default for Config {
             z3_alt: "z3-new".into(),
             seed: 0,
             keep_samples: 3,
+            cvc5: "cvc5".into(),
+            fp_timeout_ms: 60000,
+            float_search: (1.0e-3, 1.0e3),
+            float_search_trials: 4000,
         }
     }
 }
@@ -203,6 +213,8 @@ pub struct Engine {
     path_nontrivial: bool,
     path_oblig_labels: Vec<String>,
     div_log: Vec<(String, u32, u32)>,
+    path_implied: Vec<(String, B)>,
+    implied_true: std::collections::HashSet<B>,
     // across paths
     worklist: Vec<Vec<bool>>,
     pub stats: Stats,
@@ -256,6 +268,8 @@ impl Engine {
             path_nontrivial: false,
             path_oblig_labels: Vec::new(),
             div_log: Vec::new(),
+            path_implied: Vec::new(),
+            implied_true: std::collections::HashSet::new(),
             worklist: Vec::new(),
             stats: Stats::default(),
             candidates: Vec::new(),
@@ -1075,7 +1089,10 @@ impl std::ops::DivAssign for Sym {
 }
 
 impl PartialEq for Sym {
-    fn eq(&self, o: &Sym) -> bool { decide(eq(*self, *o)) }
+    #[track_caller]
+    fn eq(&self, o: &Sym) -> bool { decide_at(eq(*self, *o), Some(caller())) }
+    #[track_caller]
+    fn ne(&self, o: &Sym) -> bool { !decide_at(eq(*self, *o), Some(caller())) }
 }
 impl Eq for Sym {}
 impl PartialOrd for Sym {
@@ -1106,7 +1123,13 @@ impl crate::traits::Signed for Sym { fn abs(&self) -> Sym { Sym::abs(*self) } }
 // ---------------------------------------------------------------------------
 
 /// One data-dependent branch of the code under test.
-pub fn decide(atom: B) -> bool {
+pub fn decide(atom: B) -> bool { decide_at(atom, None) }
+
+/// Equalities that were taken as true on this path only because the solver showed the
+/// other side infeasible OVER THE REALS (the code relies on an exact cancellation there).
+pub fn implied_equalities() -> Vec<(String, B)> { with(|e| e.path_implied.clone()) }
+
+pub fn decide_at(atom: B, site: Option<String>) -> bool {
     // constant?
     let (konst, forced) = with(|e| {
         let k = e.eval_b(&atom);
@@ -1148,11 +1171,17 @@ pub fn decide(atom: B) -> bool {
                     e.stats.forks += 1;
                 });
                 true
-            } else { t_ok }
+            } else {
+                if t_ok && matches!(atom, B::Eq(..)) { with(|e| { e.implied_true.insert(atom.clone()); }); }
+                t_ok
+            }
         }
     };
     with(|e| {
         e.stats.decisions += 1;
+        if take && e.implied_true.contains(&atom) {
+            e.path_implied.push((site.clone().unwrap_or_default(), atom.clone()));
+        }
         e.trace.push(take);
         let lit = if take { atom } else { atom.not() };
         if !e.pc.contains(&lit) { e.pc.push(lit); }
@@ -1236,12 +1265,156 @@ pub fn prove(label: &str, b: B) -> Proof {
                 e.stats.failed += 1;
                 let model = model.unwrap_or_default();
                 let exact = model.values().all(|v| !v.starts_with('~'));
-                e.candidates.push(Candidate { label: label.to_string(), trace: e.trace.clone(), model, exact });
+                e.candidates.push(Candidate { label: label.to_string(), trace: e.trace.clone(), model, exact, float: false });
                 Proof::Failed
             }
         }
     })
 }
+
+impl Engine {
+    /// QF_FP text for `assumptions /\ not goal` over IEEE doubles (RNE), or None if a node has no FP meaning.
+    fn emit_fp(&self, bs: &[&B], negate_last: bool) -> Option<(String, Vec<u32>)> {
+        let mut roots = Vec::new();
+        for b in bs { b.roots(&mut roots); }
+        let mut seen: BTreeSet<u32> = BTreeSet::new();
+        let mut stack = roots;
+        while let Some(i) = stack.pop() {
+            if !seen.insert(i) { continue; }
+            match &self.nodes[i as usize] {
+                Node::Add(a, b) | Node::Sub(a, b) | Node::Mul(a, b) | Node::Div(a, b) | Node::Max(a, b) | Node::Min(a, b) => { stack.push(*a); stack.push(*b); }
+                Node::Neg(a) | Node::Abs(a) | Node::Sqrt(a) => stack.push(*a),
+                Node::Fun1(..) | Node::Fun2(..) => return None,
+                _ => {}
+            }
+        }
+        let fpc = |x: f64| -> String {
+            let b = x.to_bits();
+            format!("(fp #b{} #b{:011b} #b{:052b})", b >> 63, (b >> 52) & 0x7ff, b & 0x000f_ffff_ffff_ffff)
+        };
+        let nm = |i: u32| -> String {
+            match &self.nodes[i as usize] {
+                Node::Const(r) => fpc(r.to_f64()),
+                Node::FConst(b) => fpc(f64::from_bits(*b)),
+                Node::Var(_) => format!("v{}", i),
+                _ => format!("n{}", i),
+            }
+        };
+        let mut s = String::from("(set-logic QF_FP)\n(set-option :produce-models true)\n(define-sort F () (_ FloatingPoint 11 53))\n");
+        let mut vars = Vec::new();
+        for &i in &seen {
+            match &self.nodes[i as usize] {
+                Node::Var(name) => {
+                    s.push_str(&format!("(declare-const v{} F) ; {}\n(assert (not (fp.isNaN v{})))\n(assert (not (fp.isInfinite v{})))\n", i, name, i, i));
+                    vars.push(i);
+                }
+                Node::Fresh(_) => { s.push_str(&format!("(declare-const n{} F)\n", i)); }
+                Node::Const(_) | Node::FConst(_) => {}
+                Node::Add(a, b) => s.push_str(&format!("(define-fun n{} () F (fp.add RNE {} {}))\n", i, nm(*a), nm(*b))),
+                Node::Sub(a, b) => s.push_str(&format!("(define-fun n{} () F (fp.sub RNE {} {}))\n", i, nm(*a), nm(*b))),
+                Node::Mul(a, b) => s.push_str(&format!("(define-fun n{} () F (fp.mul RNE {} {}))\n", i, nm(*a), nm(*b))),
+                Node::Div(a, b) => s.push_str(&format!("(define-fun n{} () F (fp.div RNE {} {}))\n", i, nm(*a), nm(*b))),
+                Node::Neg(a) => s.push_str(&format!("(define-fun n{} () F (fp.neg {}))\n", i, nm(*a))),
+                Node::Abs(a) => s.push_str(&format!("(define-fun n{} () F (fp.abs {}))\n", i, nm(*a))),
+                Node::Max(a, b) => s.push_str(&format!("(define-fun n{} () F (fp.max {} {}))\n", i, nm(*a), nm(*b))),
+                Node::Min(a, b) => s.push_str(&format!("(define-fun n{} () F (fp.min {} {}))\n", i, nm(*a), nm(*b))),
+                Node::Sqrt(a) => s.push_str(&format!("(define-fun n{} () F (fp.sqrt RNE {}))\n", i, nm(*a))),
+                Node::Fun1(..) | Node::Fun2(..) => return None,
+            }
+        }
+        fn fb(e: &Engine, b: &B, nm: &dyn Fn(u32) -> String) -> String {
+            match b {
+                B::True => "true".into(),
+                B::False => "false".into(),
+                B::Lt(x, y) => format!("(fp.lt {} {})", nm(*x), nm(*y)),
+                B::Le(x, y) => format!("(fp.leq {} {})", nm(*x), nm(*y)),
+                B::Eq(x, y) => format!("(fp.eq {} {})", nm(*x), nm(*y)),
+                B::Not(x) => format!("(not {})", fb(e, x, nm)),
+                B::And(v) => if v.is_empty() { "true".into() } else { format!("(and {})", v.iter().map(|x| fb(e, x, nm)).collect::<Vec<_>>().join(" ")) },
+                B::Or(v) => if v.is_empty() { "false".into() } else { format!("(or {})", v.iter().map(|x| fb(e, x, nm)).collect::<Vec<_>>().join(" ")) },
+            }
+        }
+        let n = bs.len();
+        for (k, b) in bs.iter().enumerate() {
+            let t = fb(self, b, &nm);
+            if negate_last && k + 1 == n { s.push_str(&format!("(assert (not {}))\n", t)); } else { s.push_str(&format!("(assert {})\n", t)); }
+        }
+        s.push_str("(check-sat)\n");
+        if !vars.is_empty() {
+            s.push_str(&format!("(get-value ({}))\n", vars.iter().map(|v| format!("v{}", v)).collect::<Vec<_>>().join(" ")));
+        }
+        Some((s, vars))
+    }
+
+    fn check_fp(&mut self, text: &str) -> (Verdict, Option<BTreeMap<String, String>>) {
+        if let Some((v, m)) = self.memo.get(text) { self.stats.q_memo += 1; return (*v, m.clone()); }
+        let t0 = Instant::now();
+        let dir = std::env::var("VERIF_TMP").unwrap_or_else(|_| "/verif/.build/tmp".into());
+        let _ = std::fs::create_dir_all(&dir);
+        let path = format!("{}/fp-{}-{}.smt2", dir, std::process::id(), self.stats.q_sat + self.stats.q_unsat + self.stats.q_unknown);
+        let mut verdict = Verdict::Unknown;
+        let mut model = None;
+        if std::fs::write(&path, text).is_ok() {
+            let out = Command::new(&self.cfg.cvc5).arg("--lang").arg("smt2").arg(format!("--tlimit={}", self.cfg.fp_timeout_ms)).arg(&path).output();
+            if let Ok(o) = out {
+                let txt = String::from_utf8_lossy(&o.stdout).to_string();
+                let first = txt.lines().next().unwrap_or("").trim().to_string();
+                if !txt.contains("(error") {
+                    if first == "sat" { verdict = Verdict::Sat; } else if first == "unsat" { verdict = Verdict::Unsat; }
+                }
+                if verdict == Verdict::Sat {
+                    let rest: String = txt.lines().skip(1).collect::<Vec<_>>().join(" ");
+                    let mut m = BTreeMap::new();
+                    // ((v3 (fp #b0 #b10000000000 #b000...)) ...)
+                    let toks: Vec<&str> = rest.split(|c: char| c.is_whitespace() || c == '(' || c == ')').filter(|t| !t.is_empty()).collect();
+                    let mut k = 0;
+                    while k < toks.len() {
+                        if toks[k].starts_with('v') && k + 4 < toks.len() && toks[k + 1] == "fp" {
+                            let bits = format!("{}{}{}", &toks[k + 2][2..], &toks[k + 3][2..], &toks[k + 4][2..]);
+                            if let (Ok(id), Ok(b)) = (toks[k][1..].parse::<u32>(), u64::from_str_radix(&bits, 2)) {
+                                if let Some(name) = self.var_names.get(&id) { m.insert(name.clone(), format!("bits:{:016x}", b)); }
+                            }
+                            k += 5;
+                        } else { k += 1; }
+                    }
+                    model = Some(m);
+                }
+            }
+            let _ = std::fs::remove_file(&path);
+        }
+        self.stats.solver_s += t0.elapsed().as_secs_f64();
+        match verdict { Verdict::Sat => self.stats.q_sat += 1, Verdict::Unsat => self.stats.q_unsat += 1, Verdict::Unknown => self.stats.q_unknown += 1 }
+        self.memo.insert(text.to_string(), (verdict, model.clone()));
+        (verdict, model)
+    }
+}
+
+/// Obligation over IEEE-754 doubles (bit-precise, RNE, evaluation order of the source):
+/// `assumptions => goal` for all finite double values of the variables.  Decided by cvc5 (QF_FP).
+pub fn prove_fp(label: &str, assumptions: &[B], goal: B) -> Proof {
+    with(|e| {
+        e.stats.obligations += 1;
+        e.path_oblig_labels.push(label.to_string());
+        if e.concrete.is_some() { e.stats.discharged_concrete_const += 1; return Proof::Syntactic; }
+        let mut v: Vec<&B> = assumptions.iter().collect();
+        v.push(&goal);
+        let text = match e.emit_fp(&v, true) { Some((t, _)) => t, None => { e.stats.undecided += 1; e.undecided_labels.push(format!("{} (no FP encoding)", label)); return Proof::Undecided; } };
+        let (vd, m) = e.check_fp(&text);
+        match vd {
+            Verdict::Unsat => { e.stats.discharged_solver += 1; e.path_nontrivial = true; Proof::Solver }
+            Verdict::Unknown => { e.stats.undecided += 1; e.undecided_labels.push(label.to_string()); Proof::Undecided }
+            Verdict::Sat => {
+                e.stats.failed += 1;
+                if !e.candidates.iter().any(|c| c.label == label && c.float) {
+                    e.candidates.push(Candidate { label: label.to_string(), trace: e.trace.clone(), model: m.unwrap_or_default(), exact: true, float: true });
+                }
+                Proof::Failed
+            }
+        }
+    })
+}
+
+pub fn is_float() -> bool { with(|e| e.cfg.float) }
 
 /// Obligation that is discharged when both sides are the same arena node, and
 /// handed to the solver otherwise.
@@ -1374,6 +1547,7 @@ pub fn explore(cfg: Config, body: &mut dyn FnMut()) -> Report {
             e.path_nontrivial = false;
             e.path_oblig_labels.clear();
             e.div_log.clear();
+            e.path_implied.clear();
         });
         let r = panic::catch_unwind(AssertUnwindSafe(|| body()));
         match r {
@@ -1416,6 +1590,13 @@ pub fn run_concrete(mut cfg: Config, float: bool, binding: &BTreeMap<String, Str
     let mut bind = BTreeMap::new();
     let mut errors = Vec::new();
     for (k, v) in binding {
+        if let Some(h) = v.strip_prefix("bits:") {
+            if let Ok(b) = u64::from_str_radix(h, 16) {
+                let x = f64::from_bits(b);
+                bind.insert(k.clone(), if float { CVal::F(x) } else { Rat::from_f64(x).map(CVal::R).unwrap_or(CVal::F(x)) });
+                continue;
+            }
+        }
         let v = v.trim_start_matches('~');
         match Rat::parse(v) {
             Some(r) => { bind.insert(k.clone(), if float { CVal::F(r.to_f64()) } else { CVal::R(r) }); }
